@@ -1198,7 +1198,7 @@ func (x *Exec) checkRefines(s *State, res []Val, r *Refine) {
 	for _, a := range x.spec.Assigns {
 		t := strings.TrimSpace(a)
 		ok := strings.HasPrefix(t, "all ") || strings.HasPrefix(t, recv+".") || strings.HasPrefix(t, "*"+recv+".") || strings.HasPrefix(t, "this.") ||
-			strings.Contains(t, "("+recv+",") || strings.Contains(t, "("+recv+")")
+			strings.Contains(t, "("+recv+",") || strings.Contains(t, "("+recv+")") || strings.Contains(t, "("+recv+".") || strings.Contains(t, "(*"+recv+".")
 		goal := "true"
 		if !ok {
 			goal = "false"
